@@ -373,6 +373,7 @@ ImmOfInt(T, v) == LET w == IntTypes[T][1] IN LimbsOfBits(Ext(Trunc(BitsOfLimbs(v
 (* value_as<T>(): "The value is masked before it's casted to T so the returned value is simply the           *)
 (* representation of T considering the original value's lowest bits." (returned zero-extended to 64 bits)     *)
 ValueAs(T, val) == LimbsOfBits(ZExt(Trunc(BitsOfLimbs(val), IntTypes[T][1]), 64))
+ExtendEvents == {"sign_extend_int8", "sign_extend_int16", "sign_extend_int32", "zero_extend_uint8", "zero_extend_uint16", "zero_extend_uint32"}
 ImmPre(s, ev) ==
   LET e == ev.e IN
   CASE e \in {"make_int", "set_value_int"} -> /\ ev.T \in DOMAIN IntTypes /\ Is64(ev.v) /\ (e = "make_int" => ev.n \in 0..15)
@@ -381,6 +382,7 @@ ImmPre(s, ev) ==
     [] e = "make_shift" -> ev.sop \in 0..13 /\ Is32(ev.v)
     [] e = "set_type" -> ev.n \in 0..1
     [] e = "set_predicate" -> ev.n \in 0..15
+    [] e \in ExtendEvents -> s.ity = 0          \* "Sign extend the INTEGER immediate value ..." - not defined for kDouble immediates
     [] OTHER -> TRUE
 ImmApply(s, ev) ==
   LET e == ev.e IN
@@ -413,7 +415,6 @@ ImmApply(s, ev) ==
 ImmEvents == {"reset", "default", "make_int", "make_fp", "make_shift", "set_value_int", "set_value_fp", "set_type", "reset_type",
               "set_predicate", "reset_predicate", "clone", "sign_extend_int8", "sign_extend_int16", "sign_extend_int32",
               "zero_extend_uint8", "zero_extend_uint16", "zero_extend_uint32"}
-ExtendEvents == {"sign_extend_int8", "sign_extend_int16", "sign_extend_int32", "zero_extend_uint8", "zero_extend_uint16", "zero_extend_uint32"}
 ImmTouches(e) ==
   CASE e \in {"reset", "default", "make_int", "make_fp", "make_shift"} -> ImmFields
     [] e \in {"set_value_int", "set_value_fp"} -> {"ity", "val"}
